@@ -352,7 +352,9 @@ def axis_lines(prog, chk):
         # sibling agreement: both resolve endpoint boxes through the element map
         viamap = [mc for mc in hirq.exprs(arm, "MethodCall") if mc["name"] == "get_element_bbox"]
         direct = [mc for mc in hirq.exprs(arm, "MethodCall") if mc["name"] == "bbox"]
-        chk.ob(len(viamap) == 2 and not direct, "A16.sibling-bbox", name, rd.where(), f"{name.lower()} connectors take both endpoint boxes from the element map (works for use/reuse targets and clipped elements)", f"{name} connector takes endpoint boxes via {[m['name'] for m in viamap + direct]}: its sibling uses the element map, so the same endpoints work for one edge-type and fail for the other")
+        # (the boxes may be fetched through a helper: what must not happen is one edge type reading el.bbox() directly)
+        mir_direct = rd.call_sites(R.path_endswith("SvgElement::bbox"))
+        chk.ob(not direct and not mir_direct, "A16.sibling-bbox", name, rd.where(), f"{name.lower()} connectors take both endpoint boxes from the element map (works for use/reuse targets and clipped elements)", f"{name} connector takes endpoint boxes via {[m['name'] for m in viamap + direct]}: its sibling uses the element map, so the same endpoints work for one edge-type and fail for the other")
 
 
 def wiring(prog, chk):
